@@ -115,6 +115,53 @@ def gen_var_leaf(rng, cls, batch, n):
     raise ValueError(cls)
 
 
+# ----------------------------------------------------------------------------------------- (c) preconditioned operators
+# AddedDiagLinearOperator is the class that supplies a preconditioner (pivoted Cholesky of the non-diagonal part);
+# CIQ sampling then runs preconditioned CG / MINRES and a nested CIQ with the preconditioner's root.
+
+PC_LEAVES = ["AddedDiagVar", "AddedDiagConstVar", "AddedDiagLRVar", "AddedDiag", "AddedDiagSpec"]
+PC_STRUCT = ["BlockDiag(AD)", "BlockInterleaved(AD)", "SumBatch(AD)", "PsdSum(AD,Diag)", "PsdSum(AD,AD)", "Sum(AD,Dense)",
+             "Interpolated(AD)"]
+PC_ROT = ["AddedDiagVar", "AddedDiagConstVar", "AddedDiagLRVar"]
+
+
+def lowrank_var(rng, batch, n, r):
+    """(*batch, n, n) = a a^T with a:(n, r), member j scaled by s_j (rank r < n: the pivoted Cholesky of rank >= r is exact)"""
+    B = _prod(batch)
+    g = torch.Generator().manual_seed(rng.randrange(1 << 30))
+    mats = []
+    for (s, c) in member_params(rng, B):
+        a = N._real_randn(n, r, generator=g, dtype=torch.float64) * (s * c / (2 * n)) ** 0.5
+        mats.append(a @ a.mT)
+    return ft(torch.stack(mats).reshape(*batch, n, n))
+
+
+def gen_pc(rng, cls, batch, n, rot, interp):
+    batch = list(batch)
+    if cls == "AddedDiagConstVar":
+        B = _prod(batch)
+        return {"cls": "AddedDiag", "base": {"cls": "Dense", "t": spd_var(rng, batch, n)},
+                "diag": {"cls": "ConstantDiag", "c": {"shape": batch + [1], "data": [s * c / 2 for (s, c) in member_params(rng, B)]}, "n": n}}
+    if cls == "AddedDiagLRVar":
+        return {"cls": "AddedDiag", "base": {"cls": "Dense", "t": lowrank_var(rng, batch, n, max(1, min(3, n - 1)))},
+                "diag": {"cls": "Diag", "d": diag_var(rng, batch, n)}}
+    if cls == "AddedDiagVar":
+        return gen_var_leaf(rng, cls, batch, n)
+    ad = lambda i, b, m: gen_pc(rng, PC_ROT[(rot + i) % len(PC_ROT)], b, m, rot, interp)
+    if cls in ("BlockDiag(AD)", "BlockInterleaved(AD)", "SumBatch(AD)"):
+        nb = 2 + rot % 2
+        return {"cls": cls[:-4], "base": ad(0, batch + [nb], n), "block_dim": -3}
+    if cls == "PsdSum(AD,Diag)":
+        return {"cls": "PsdSum", "ops": [ad(0, batch, n), {"cls": "Diag", "d": diag_var(rng, batch, n)}]}
+    if cls == "PsdSum(AD,AD)":
+        return {"cls": "PsdSum", "ops": [ad(0, batch, n), ad(1, batch, n)]}
+    if cls == "Sum(AD,Dense)":
+        return {"cls": "Sum", "ops": [ad(0, batch, n), {"cls": "Dense", "t": spd_var(rng, batch, n)}]}
+    if cls == "Interpolated(AD)":
+        return interp(rng, ad(0, batch, 3 + rot % 3), batch, n)
+    raise ValueError(cls)
+
+
 # ----------------------------------------------------------------------------------------- (a) histories
 
 def _rhs(op, g, cols):
